@@ -60,6 +60,7 @@ package main
 //@   ensures kind [C16]: result1 == nil ==> (ctxString(c, "format") == "json" ==> result0 != nil && gtree.optKind(result0) == gtree.optKJSON) && (ctxString(c, "format") == "yaml" ==> result0 != nil && gtree.optKind(result0) == gtree.optKYAML) && (ctxString(c, "format") == "toml" ==> result0 != nil && gtree.optKind(result0) == gtree.optKTOML) && (ctxString(c, "format") == "" ==> result0 == nil)
 //@   ensures known [C16]: result1 == nil ==> ctxString(c, "format") == "json" || ctxString(c, "format") == "yaml" || ctxString(c, "format") == "toml" || ctxString(c, "format") == ""
 //@   ensures unknown [C16]: !(ctxString(c, "format") == "json" || ctxString(c, "format") == "yaml" || ctxString(c, "format") == "toml" || ctxString(c, "format") == "") ==> result1 != nil
+//@   ensures valid [C16]: ctxString(c, "format") == "json" || ctxString(c, "format") == "yaml" || ctxString(c, "format") == "toml" || ctxString(c, "format") == "" ==> result1 == nil
 
 //@ func main.actionVerify
 //@   requires nn: c != nil
@@ -86,6 +87,7 @@ package main
 //@   ensures nofs [C16]: fsOps == old(fsOps)
 //@   ensures wired [C16]: libCalls == old(libCalls) + 1 && !ctxBool(c, "watch") ==> !lastConfig.dryrun && !lastConfig.strictVerify && (ctxString(c, "format") == "json" ==> lastConfig.encode == gtree.encodeJSON) && (ctxString(c, "format") == "yaml" ==> lastConfig.encode == gtree.encodeYAML) && (ctxString(c, "format") == "toml" ==> lastConfig.encode == gtree.encodeTOML) && (ctxString(c, "format") == "" ==> lastConfig.encode == gtree.encodeDefault)
 //@   ensures live [C16]: libCalls == old(libCalls) + 1 && !ctxBool(c, "watch") ==> lastCtxLive
+//@   ensures stdin [C16]: (ctxPath(c, "file") == "" || ctxPath(c, "file") == "-") && (ctxString(c, "format") == "json" || ctxString(c, "format") == "yaml" || ctxString(c, "format") == "toml" || ctxString(c, "format") == "") ==> libCalls == old(libCalls) + 1 && libWriter == os.Stdout
 
 // main: when app.Run reports an error the process must not end with status 0. The normal return of main is
 // exit status 0, so reaching it requires that Run returned nil (os.Exit never returns).
